@@ -30,6 +30,9 @@ func C06(c *Ctx) {
 	r.Rule("R06.15", "the batch answer keeps only requests out of the timeout bookkeeping: filterValidTx files a transaction as invalid for the answer \"batch_ibtp\" (a request to an unordered destination is not listed for a timeout) only when the transaction is a request; a receipt's answer says nothing about how its request was treated - the two sides of checkIBTP take the flag from different services - and an accepted receipt always takes its request out of the list.")
 	r.Rule("R06.13", "T = 0 never times out: where the transaction manager computes a deadline GetCurrentHeight() + timeout and stores it as the Height of a record under which an id is listed (the group record handed to addToTimeoutList; the transaction record, when the executor lists requests under the recorded height), the function tests the timeout against 0 and on the edge on which it is 0 the recorded Height is MaxUint64 (never the sum: H + 0 = H would list the request for the block that accepted it, and it would be rolled back at once).")
 	r.NotDecided = append(r.NotDecided, "'exactly once in that block's notifications' over restarts beyond 'state is ledger-borne'; numeric adequacy of the overflow guard")
+	// "the same holds for a one-to-many group as a whole": the group leaves the timeout list when - and only when -
+	// it ends (decided by the C05 rule set)
+	r.Borrow(map[string]string{"R05.2": "R06.16", "R05.4": "R06.17"}, func() { C05(c) })
 
 	pe := c.fn("R06.1", execPrefix+"processExecuteEvent")
 	stl := c.fn("R06.1", execPrefix+"setTimeoutList")
